@@ -672,3 +672,87 @@ func runOrdSQL(c *core.Ctx) {
 	c.Check(outer, nil, fname(c, build), "order/outer", P.Pos(build.Pos()), "the outer select is ordered by created_at descending", "the outer select is not ordered by created_at descending: results are not newest first")
 	c.Check(inner, nil, fname(c, build), "order/per-filter", P.Pos(build.Pos()), "each per-filter sub-select is ordered by created_at descending (so its limit keeps the newest)", "a per-filter sub-select is not ordered by created_at descending: its limit keeps arbitrary (not the newest) events")
 }
+
+func init() {
+	reg(&core.RuleInfo{Name: "SQL-COND", Props: []string{"C06"}, Engine: "PROV", Floor: 4, Confirmed: 4,
+		Doc: "each list condition of a filter becomes an IN on its own column, behind the condition's presence test", Run: runSQLCond})
+}
+
+func runSQLCond(c *core.Ctx) {
+	P := c.P
+	build := P.Sqlite.Func("buildEventQuery")
+	if build == nil {
+		c.NoAnchor(nil, "sqlite.buildEventQuery")
+		return
+	}
+	c.CountFuncs(1)
+	filt := "p:" + build.Params[0].Name() + "[*]"
+	type in struct {
+		col, arg string
+		block    *ssa.BasicBlock
+		pos      string
+	}
+	var ins []in
+	for _, ci := range calls(build) {
+		com := ci.Common()
+		if !com.IsInvoke() || com.Method.Name() != "In" || len(com.Args) != 1 {
+			continue
+		}
+		_, col := sqlCol(an.PathOf(com.Value))
+		elems, _ := an.VariadicElems(com.Args[0])
+		arg := an.PathOf(com.Args[0])
+		if len(elems) == 1 {
+			arg = an.PathOf(elems[0])
+		}
+		ins = append(ins, in{col, arg, ci.Block(), P.Pos(ci.Pos())})
+	}
+	c.CountSites(len(ins))
+	for _, row := range []struct{ field, col, via string }{
+		{"IDs", "id", "encoding/hex.DecodeString("},
+		{"Authors", "pubkey", "encoding/hex.DecodeString("},
+		{"Kinds", "kind", ""},
+		{"Tags", "tag_hash", "crypto/md5.Sum("},
+	} {
+		good := false
+		detail := "no IN condition on column " + row.col
+		for _, x := range ins {
+			if x.col != row.col {
+				continue
+			}
+			detail = "IN on " + row.col + " ← " + clip(x.arg, 80)
+			// behind the presence test of this field
+			present := false
+			for _, g := range an.Guards(build, x.block) {
+				if is, nn := nilTest(g.V, filt+"."+row.field); is && g.True == nn {
+					present = true
+				}
+			}
+			// the operand is built from this field's elements (a slice filled in a loop over them, or the field itself)
+			fromField := x.arg == filt+"."+row.field
+			if !fromField {
+				an.Instrs(build, func(in2 ssa.Instruction) {
+					st, ok := in2.(*ssa.Store)
+					if !ok {
+						return
+					}
+					ia, ok := st.Addr.(*ssa.IndexAddr)
+					if !ok || an.PathOf(ia.X) != x.arg {
+						return
+					}
+					vp := an.PathOf(st.Val)
+					if strings.Contains(vp, filt+"."+row.field) || (row.field == "Tags" && strings.Contains(vp, "rangeval("+filt+".Tags)")) {
+						if row.via == "" || strings.Contains(vp, row.via) {
+							fromField = true
+						}
+					}
+				})
+			}
+			if present && fromField {
+				good = true
+			} else {
+				detail += fmt.Sprintf(" (behind '%s != nil': %v, built from the field's elements: %v)", row.field, present, fromField)
+			}
+		}
+		c.Check(good, nil, fname(c, build), "condition("+row.field+")", P.Pos(build.Pos()), "a present "+row.field+" condition becomes "+row.col+" IN (its elements)", "a present "+row.field+" condition is not translated into an IN on column "+row.col+" built from its elements: "+detail+" — the condition is ignored by stored queries")
+	}
+}
